@@ -529,8 +529,182 @@ var ruleUnwrapThread = &Rule{
 		out.Counts["next_node_dispatches"] = nn
 		out.Counts["threaded_unwrap_arguments"] = n
 		out.Floors["threaded_unwrap_arguments"] = 3
+		p.resultUnwrapIsLax(out)
 		return out
 	},
+}
+
+// resultUnwrapIsLax: a function of the Executor with a bool parameter q that,
+// where q is true, opens the arrays among the items an evaluation produced
+// (a type test for []any) unwraps results. That happens in lax mode only:
+// either the place also lies where the lax predicate answered true, or every
+// caller's argument for q is false in strict mode (the constant false, the lax
+// predicate's answer, a conjunction with it, or the caller's own parameter
+// that is held to the same).
+func (p *Prog) resultUnwrapIsLax(out *RuleOut) {
+	isLaxFact := func(f Fact) bool {
+		c, ok := f.Cond.(*ssa.Call)
+		return ok && f.Truth && p.modePredicate(c.Call.StaticCallee()) == "lax"
+	}
+	type site struct {
+		fn *ssa.Function
+		q  *ssa.Parameter
+	}
+	var sites []site
+	guardedInside := map[*ssa.Function]bool{}
+	for _, fn := range p.execFuncs() {
+		if !isMethodOfExecutor(p, fn) || fn.Blocks == nil {
+			continue
+		}
+		for _, q := range fn.Params {
+			if bt, ok := q.Type().Underlying().(*types.Basic); !ok || bt.Kind() != types.Bool {
+				continue
+			}
+			found, allLax := false, true
+			for _, b := range fn.Blocks {
+				onQ, lax := false, false
+				for _, f := range factsAt(b) {
+					if f.Cond == ssa.Value(q) && f.Truth {
+						onQ = true
+					}
+					if isLaxFact(f) {
+						lax = true
+					}
+				}
+				if !onQ {
+					continue
+				}
+				for _, ins := range b.Instrs {
+					// the opening handed to a helper of the Executor that is
+					// given the items and no node (`exec.unwrapSequence(ctx,
+					// seq.list, found)`)
+					if c, ok := ins.(*ssa.Call); ok {
+						if g := c.Call.StaticCallee(); g != nil && g != fn && !c.Call.IsInvoke() && isMethodOfExecutor(p, g) && opensResultArrays(p, g) {
+							found = true
+							if !lax {
+								allLax = false
+							}
+						}
+						continue
+					}
+					ta, ok := ins.(*ssa.TypeAssert)
+					if !ok {
+						continue
+					}
+					if sl, ok := ta.AssertedType.Underlying().(*types.Slice); ok && types.IsInterface(sl.Elem()) {
+						// only where the tested value is an element of a result
+						// list (not the function's own item parameter)
+						if _, isParam := ta.X.(*ssa.Parameter); isParam {
+							continue
+						}
+						found = true
+						if !lax {
+							allLax = false
+						}
+					}
+				}
+			}
+			if found {
+				sites = append(sites, site{fn, q})
+				if allLax {
+					guardedInside[fn] = true
+				}
+			}
+		}
+	}
+	var laxOnly func(v ssa.Value, at *ssa.BasicBlock, depth int) string
+	laxOnly = func(v ssa.Value, at *ssa.BasicBlock, depth int) string {
+		if depth > 4 {
+			return "too deep to follow"
+		}
+		if isConstBool(v, false) {
+			return ""
+		}
+		switch x := v.(type) {
+		case *ssa.Call:
+			if p.modePredicate(x.Call.StaticCallee()) == "lax" {
+				return ""
+			}
+		case *ssa.Phi:
+			for i, e := range x.Edges {
+				pred := x.Block().Preds[i]
+				viaLax := false
+				for _, f := range edgeFacts(pred, succIndex(pred, x.Block())) {
+					if isLaxFact(f) {
+						viaLax = true
+					}
+				}
+				if viaLax {
+					continue
+				}
+				if why := laxOnly(e, pred, depth+1); why != "" {
+					return why
+				}
+			}
+			return ""
+		case *ssa.Parameter:
+			fn := x.Parent()
+			if fn == nil || !isMethodOfExecutor(p, fn) {
+				return "parameter " + x.Name()
+			}
+			n := 0
+			for _, caller := range p.execFuncs() {
+				for _, c := range callsTo(caller, fn) {
+					n++
+					pi := paramIndex(x)
+					if pi >= len(c.Call.Args) {
+						return "call at " + p.pos(c.Pos())
+					}
+					if why := laxOnly(c.Call.Args[pi], c.Block(), depth+1); why != "" {
+						return why
+					}
+				}
+			}
+			if n == 0 {
+				return "parameter " + x.Name() + " of a function without callers in the package"
+			}
+			return ""
+		}
+		if at != nil {
+			for _, f := range factsAt(at) {
+				if isLaxFact(f) {
+					return ""
+				}
+			}
+		}
+		if isConstBool(v, true) {
+			return "the constant true at " + p.pos(at.Instrs[0].Pos())
+		}
+		return trunc(v.String(), 40)
+	}
+	n := 0
+	for _, s := range sites {
+		n++
+		key := fnName(s.fn) + " unwraps results in lax mode only"
+		if guardedInside[s.fn] {
+			out.ok(key, p.pos(s.fn.Pos()), fnName(s.fn), "the arrays among the results are opened where "+s.q.Name()+" is true and the lax predicate answered true")
+			continue
+		}
+		bad := ""
+		for _, caller := range p.execFuncs() {
+			for _, c := range callsTo(caller, s.fn) {
+				pi := paramIndex(s.q)
+				if pi >= len(c.Call.Args) {
+					continue
+				}
+				if why := laxOnly(c.Call.Args[pi], c.Block(), 0); why != "" && bad == "" {
+					bad = fnName(caller) + " at " + p.pos(c.Pos()) + " passes " + why
+				}
+			}
+		}
+		if bad == "" {
+			out.ok(key, p.pos(s.fn.Pos()), fnName(s.fn), "every caller's argument for "+s.q.Name()+" is false in strict mode")
+		} else {
+			out.viol(key, p.pos(s.fn.Pos()), fnName(s.fn), "the arrays among the results of an evaluation are opened whenever "+s.q.Name()+" is true, and "+bad+", which can be true in strict mode: a strict path treats a one-element array as the element (an operand that is an array is no longer an error)")
+		}
+	}
+	out.Counts["result_unwrappers"] = n
+	out.Floors["result_unwrappers"] = 1
 }
 
 func init() { register(ruleUnwrapThread) }
@@ -868,3 +1042,36 @@ var ruleAddrKey = &Rule{
 }
 
 func init() { register(ruleAddrKey) }
+
+// opensResultArrays: g takes a slice of items and no node, and tests an
+// element for being an array.
+func opensResultArrays(p *Prog, g *ssa.Function) bool {
+	if g.Blocks == nil {
+		return false
+	}
+	hasSlice := false
+	for _, q := range g.Params {
+		if types.Identical(q.Type(), types.Type(p.A.Node)) {
+			return false
+		}
+		if sl, ok := q.Type().Underlying().(*types.Slice); ok && types.IsInterface(sl.Elem()) {
+			hasSlice = true
+		}
+	}
+	if !hasSlice {
+		return false
+	}
+	for _, b := range g.Blocks {
+		for _, ins := range b.Instrs {
+			if ta, ok := ins.(*ssa.TypeAssert); ok {
+				if _, isParam := ta.X.(*ssa.Parameter); isParam {
+					continue
+				}
+				if sl, ok := ta.AssertedType.Underlying().(*types.Slice); ok && types.IsInterface(sl.Elem()) {
+					return true
+				}
+			}
+		}
+	}
+	return false
+}
